@@ -235,14 +235,14 @@ pub fn subchecks(tier: Tier) -> Vec<SubCheck> {
         generated(
             "laws_near",
             "pairs of normalised hashes, block sizes mostly equal / double / half with the comparable block hashes derived from one another (edits, copies, unrelated), short and long; range, symmetry, self = 100, far = 0, score>0 <=> equal or candidate, candidate = first-principles definition = index-window intersection, window encodings from first principles; non-trivial = near relation and >= 7 symbols in a compared pair; distinct by the two texts",
-            tier.pick(40_000, 1_500_000),
+            tier.pick(300_000, 4_000_000),
             strategy,
             eval,
         ),
         generated(
             "laws_matrix_31x31",
             "uniform over all 31x31 block-size pairs (incl. log 30 whose block hash 2 has effective index 31) with crossed derived content; same laws",
-            tier.pick(31 * 31 * 12, 31 * 31 * 400),
+            tier.pick(31 * 31 * 60, 31 * 31 * 1000),
             matrix_strategy,
             eval,
         ),
